@@ -341,6 +341,20 @@ theorem in_use_survives_housekeeping (cfg : Cfg) (hfix : cfg.countIdleOnly = tru
   · rw [heq, h2] at h; cases h
   · rw [heq, hres] at h; cases h
 
+/-- the same for an HTTP/1.1 connection with an exchange open: whatever the clock says and although the response bytes make its
+socket readable, the house-keeping loop does not close it while the pool holds it for a request -/
+theorem in_use_h1_survives_housekeeping (cfg : Cfg) (hfix : cfg.countIdleOnly = true) (res : List Nat) (s : State)
+    (ka : Option Nat) (ops : List Op1) (now : Nat) (readable : Bool) (id origin : Nat)
+    (ha : (run1 (init1 ka) ops).c.st = .active)
+    (hres : isReserved res (view1 now readable id origin (run1 (init1 ka) ops).c) = true) :
+    ∀ e ∈ (cleanup cfg res s.conns s.conns []).2, e.1 ≠ view1 now readable id origin (run1 (init1 ka) ops).c := by
+  intro e he heq
+  obtain ⟨h1, h2, _, _⟩ := h1_in_use_view ka ops now readable id origin ha
+  rcases close_reasons cfg hfix res s e he with ⟨_, h⟩ | ⟨k, _, h, _, _⟩ | ⟨_, _, h⟩
+  · rw [heq, h1] at h; cases h
+  · rw [heq, h2] at h; cases h
+  · rw [heq, hres] at h; cases h
+
 /-- ... and it is not evicted to make room either (only idle connections are) -/
 theorem in_use_not_evicted (cfg : Cfg) (s : State) (r : Req) (ka : Option Nat) (ops : List Op2) (now id origin : Nat)
     (hu : (run2 (init2 ka) ops).inUse) (hc : (run2 (init2 ka) ops).c.st ≠ .closed) :
@@ -357,5 +371,59 @@ theorem in_use_not_evicted (cfg : Cfg) (s : State) (r : Req) (ka : Option Nat) (
       simpa using this
     subst this
     rw [heq, h2] at hidle; cases hidle
+
+end Httpcore.C09
+
+namespace Httpcore.C09
+open Httpcore.Pool
+
+/-- the configuration the current source implements, read off the regenerated flags -/
+def srcCfg (maxConn maxKeepalive : Nat) (newAvail : Nat → Bool) : Cfg :=
+  { maxConn := maxConn, maxKeepalive := maxKeepalive, newAvail := newAvail, countIdleOnly := Gen.poolCountsIdleOnly,
+    protectAssigned := Gen.poolProtectsAssigned, reclaimAbandoned := Gen.poolReclaimsAbandoned }
+
+/-- **cleanup_follows_source** - Tie A, literally: one iteration of the model's house-keeping loop does to a connection exactly what
+the *translated* `if / elif` chain of the source (`Gen.poolCleanupDecision`, regenerated on every run) decides - which branch takes
+it, whether it is removed, whether it is handed to `_close_connections` - for every connection, every reservation list and every
+pool content. -/
+theorem cleanup_follows_source (mc mk : Nat) (na : Nat → Bool) (res : List Nat) (c : Conn) (rest cur : List Conn)
+    (closing : List (Conn × Reason)) :
+    let cfg := srcCfg mc mk na
+    let d := Gen.poolCleanupDecision c.closed c.expired c.idle (isReserved res c) (cur.filter (·.idle)).length cur.length mk
+    cleanup cfg res (c :: rest) cur closing =
+      (if d.1 = 4 then cleanup cfg res rest cur closing
+       else if d.2 then
+         cleanup cfg res rest (cur.erase c) (closing ++ [(c, if d.1 = 1 then .expired else if d.1 = 2 then .surplus (cur.filter (·.idle)).length else .abandoned)])
+       else cleanup cfg res rest (cur.erase c) closing) := by
+  have f1 : Gen.poolCountsIdleOnly = true := by decide
+  have f2 : Gen.poolProtectsAssigned = true := by decide
+  have f3 : Gen.poolReclaimsAbandoned = true := by decide
+  simp only [srcCfg, f1, f3, cleanup, Gen.poolCleanupDecision, surplusCount, if_true]
+  cases c.closed <;> cases c.expired <;> cases c.idle <;> cases isReserved res c <;>
+    by_cases hk : (cur.filter (·.idle)).length > mk <;> simp [hk]
+
+/-- **assign_follows_source** - the same for the assignment loop: for one queued request the model reuses / creates / evicts-and-creates /
+leaves waiting exactly as the translated chain `Gen.poolAssignDecision` says, for every pool content. -/
+theorem assign_follows_source (cfg : Cfg) (s : State) (r : Req) :
+    let avail := s.conns.filter (fun c => c.origin == r.origin && c.available)
+    let idles := s.conns.filter (fun c => c.idle && !(isReserved s.reserved c))
+    let d := Gen.poolAssignDecision (!avail.isEmpty) (!idles.isEmpty) s.conns.length cfg.maxConn
+    (d.1 = 0 → ∃ c, avail.head? = some c ∧ (assignOne cfg s r).2.conn = some c.id ∧ (assignOne cfg s r).1.conns = s.conns) ∧
+    (d.1 = 1 → (assignOne cfg s r).2.conn = some s.nextId ∧ (assignOne cfg s r).1.conns = s.conns ++ [fresh cfg s.nextId r.origin] ∧
+               (assignOne cfg s r).1.closing = s.closing) ∧
+    (d.1 = 2 → ∃ i, idles.head? = some i ∧ (assignOne cfg s r).2.conn = some s.nextId ∧
+               (assignOne cfg s r).1.conns = (s.conns.erase i) ++ [fresh cfg s.nextId r.origin] ∧
+               (assignOne cfg s r).1.closing = s.closing ++ [(i, .room)]) ∧
+    (d.1 = 3 → assignOne cfg s r = (s, r)) := by
+  intro avail idles d
+  simp only [d, Gen.poolAssignDecision, assignOne]
+  cases ha : s.conns.filter (fun c => c.origin == r.origin && c.available) with
+  | cons c tl => simp [avail, ha, fresh]
+  | nil =>
+    by_cases hl : s.conns.length < cfg.maxConn
+    · simp [avail, ha, hl, fresh]
+    · cases hi : s.conns.filter (fun c => c.idle && !(isReserved s.reserved c)) with
+      | cons i tl => simp [avail, idles, ha, hl, hi, fresh]
+      | nil => simp [avail, idles, ha, hl, hi]
 
 end Httpcore.C09
